@@ -46,12 +46,18 @@ package topic
 // The callback type of match/search: called only with a non-empty value list;
 // whatever it does, it leaves the trie's structure intact.
 //@ ghost anystop bool
+// seen: the set of values that were handed to a callback (as elements of the
+// value lists it was invoked with); inl(l, v): v occurs in the list l.
+//@ ghost seen map[iface]bool
+//@ spec pred inl(l []interface{}, v iface) = exists i int {l[i]} :: 0 <= i && i < len(l) && l[i] == v
 //@ functype "func([]interface{}) bool" (values []interface{}) (cont bool)
 //@   requires [nonempty] len(values) > 0
 //@   requires [wf] wf()
 //@   ensures [wf] old(wf()) ==> wf()
 //@   ensures [stop] anystop <==> (old(anystop) || !cont)
-//@   modifies heap-except(any(Tree.root), any(Tree.separator), any(Tree.wildcardOne), any(Tree.wildcardSome), any(node.children), any(node.values), anymap(map[string]*node)), anystop
+//@   ensures [seen] forall v iface {seen[v]} :: seen[v] <==> (old(seen[v]) || old(inl(values, v)))
+//@   ensures [vals-kept] forall n *node {elemarr(n.values)} {old(elemarr(n.values))} :: isnode[n] ==> elemarr(n.values) == old(elemarr(n.values))
+//@   modifies heap-except(any(Tree.root), any(Tree.separator), any(Tree.wildcardOne), any(Tree.wildcardSome), any(node.children), any(node.values), anymap(map[string]*node)), anystop, seen
 //
 // ---------------------------------------------------------------- value lists of one node
 //
@@ -121,12 +127,13 @@ package topic
 // okf(t, f): '#' occurs only as the last level of f.
 //
 // at(n, q) is the node reached from n along the levels q (nil if there is
-// none); stored(n, q): something is stored under the path q below n.
+// none); stored(n, q): something is stored under the path q below n (the
+// node reached is a node of the trie's footprint and has values).
 //@ spec func lv(r string, sep string) Lv = r == topicEnd ? lnil() : lcons(segf(r, sep), lv(restf(r, sep), sep))
 //@ spec pred M(t *Tree, f Lv, n Lv) = isnil(f) ? isnil(n) : (lhd(f) == t.wildcardSome ? isnil(ltl(f)) : (!isnil(n) && (lhd(f) == t.wildcardOne || lhd(f) == lhd(n)) && M(t, ltl(f), ltl(n))))
 //@ spec pred okf(t *Tree, f Lv) = isnil(f) || (lhd(f) == t.wildcardSome ? isnil(ltl(f)) : okf(t, ltl(f)))
 //@ spec func at(n *node, q Lv) *node = isnil(q) ? n : (n != nil && n.children != nil && has(n.children, lhd(q)) ? at(n.children[lhd(q)], ltl(q)) : nil)
-//@ spec pred stored(n *node, q Lv) = at(n, q) != nil && len(at(n, q).values) > 0
+//@ spec pred stored(n *node, q Lv) = at(n, q) != nil && isnode[at(n, q)] && len(at(n, q).values) > 0
 
 // ---------------------------------------------------------------- recursive walkers (called with the mutex held)
 //
@@ -178,6 +185,7 @@ package topic
 //@   requires [node] isnode[node] && wf() && fn != nil
 //@   ensures [wf] wf()
 //@   ensures [stop-mono] old(anystop) ==> anystop
+//@   ensures [vals-kept] forall n *node {elemarr(n.values)} {old(elemarr(n.values))} :: isnode[n] ==> elemarr(n.values) == old(elemarr(n.values))
 //@   ghostresult visited map[Lv]bool
 //@   at call 1 fn bind c1
 //@   at call 2 fn bind c2
@@ -186,34 +194,71 @@ package topic
 //@   ghostdef visited[q] := (c1 && q == lcons(t.wildcardSome, lnil())) || (c2 && isnil(q)) || (m1 && !isnil(q) && lhd(q) == t.wildcardOne && m1_visited[ltl(q)]) || (m2 && !isnil(q) && lhd(q) == segf(topic, t.separator) && m2_visited[ltl(q)])
 //@   ensures [sound] forall q Lv {visited[q]} :: visited[q] ==> stored(node, q) && M(t, q, lv(topic, t.separator))
 //@   ensures [complete] !anystop ==> forall q Lv {stored(node, q)} :: stored(node, q) && M(t, q, lv(topic, t.separator)) ==> visited[q]
+//@   ghostresult got map[iface]bool
+//@   ghostdef got[v] := (c1 && inl(node.children[t.wildcardSome].values, v)) || (c2 && inl(node.values, v)) || (m1 && m1_got[v]) || (m2 && m2_got[v])
+//@   at exit assert [w-some] c1 ==> visited[lcons(t.wildcardSome, lnil())]
+//@   at exit assert [w-end] c2 ==> visited[lnil()]
+//@   at exit assert [w-one] forall q Lv {m1_visited[q]} :: m1 && m1_visited[q] ==> visited[lcons(t.wildcardOne, q)]
+//@   at exit assert [w-lit] forall q Lv {m2_visited[q]} :: m2 && m2_visited[q] ==> visited[lcons(segf(topic, t.separator), q)]
+//@   ensures [seen] forall v iface {seen[v]} :: seen[v] <==> (old(seen[v]) || got[v])
+//@   ensures [got-sound] forall v iface {got[v]} :: got[v] ==> exists q Lv {visited[q]} :: visited[q] && inl(at(node, q).values, v)
+//@   ensures [got-complete] forall q Lv, j int {at(node, q).values[j]} :: visited[q] && 0 <= j && j < len(at(node, q).values) ==> got[at(node, q).values[j]]
+//@   ensures [seen-got] forall v iface {got[v]} :: got[v] ==> seen[v]
+//@   ensures [got-first] forall q Lv {visited[q]} :: visited[q] ==> got[at(node, q).values[0]]
 //@   calls fn
-//@   modifies anystop
+//@   modifies anystop, seen
 //@ func (t *Tree) search(topic string, node *node, fn func([]interface{}) bool)
 //@   requires [locked] held[t.mutex] >= 1 && std(t)
 //@   requires [node] isnode[node] && wf() && fn != nil
 //@   ensures [wf] wf()
 //@   ensures [stop-mono] old(anystop) ==> anystop
+//@   ensures [vals-kept] forall n *node {elemarr(n.values)} {old(elemarr(n.values))} :: isnode[n] ==> elemarr(n.values) == old(elemarr(n.values))
 //@   ghostresult visited map[Lv]bool
+//@   ghostresult got map[iface]bool
 //@   ghostlocal acc1 map[Lv]bool
 //@   ghostlocal acc2 map[Lv]bool
+//@   ghostlocal gacc1 map[iface]bool
+//@   ghostlocal gacc2 map[iface]bool
 //@   at call 1 fn bind c1
 //@   at call 2 fn bind c2
 //@   at call 1 search bind s1
 //@   at call 1 search ghost acc1[q] := acc1[q] || (!isnil(q) && lhd(q) == rangekey && s1_visited[ltl(q)])
+//@   at call 1 search ghost gacc1[v] := gacc1[v] || s1_got[v]
+//@   at call 1 search hint [w-loop1] forall q Lv {s1_visited[q]} :: s1_visited[q] ==> acc1[lcons(rangekey, q)]
 //@   at call 2 search bind s2
 //@   at call 2 search ghost acc2[q] := acc2[q] || (!isnil(q) && lhd(q) == rangekey && s2_visited[ltl(q)])
+//@   at call 2 search ghost gacc2[v] := gacc2[v] || s2_got[v]
+//@   at call 2 search hint [w-loop2] forall q Lv {s2_visited[q]} :: s2_visited[q] ==> acc2[lcons(rangekey, q)]
 //@   at call 3 search bind s3
 //@   ghostdef visited[q] := ((c1 || c2) && isnil(q)) || acc1[q] || acc2[q] || (s3 && !isnil(q) && lhd(q) == segf(topic, t.separator) && s3_visited[ltl(q)])
+//@   ghostdef got[v] := ((c1 || c2) && inl(node.values, v)) || gacc1[v] || gacc2[v] || (s3 && s3_got[v])
 //@   ensures [sound] okf(t, lv(topic, t.separator)) ==> forall q Lv {visited[q]} :: visited[q] ==> stored(node, q) && M(t, lv(topic, t.separator), q)
 //@   ensures [complete] okf(t, lv(topic, t.separator)) && !anystop ==> forall q Lv {stored(node, q)} :: stored(node, q) && M(t, lv(topic, t.separator), q) ==> visited[q]
+//@   at exit assert [w-here] (c1 || c2) ==> visited[lnil()]
+//@   at exit assert [w-acc1] forall q Lv {acc1[q]} :: acc1[q] ==> visited[q]
+//@   at exit assert [w-acc2] forall q Lv {acc2[q]} :: acc2[q] ==> visited[q]
+//@   at exit assert [w-lit] forall q Lv {s3_visited[q]} :: s3 && s3_visited[q] ==> visited[lcons(segf(topic, t.separator), q)]
+//@   ensures [seen] forall v iface {seen[v]} :: seen[v] <==> (old(seen[v]) || got[v])
+//@   ensures [got-sound] forall v iface {got[v]} :: got[v] ==> exists q Lv {visited[q]} :: visited[q] && inl(at(node, q).values, v)
+//@   ensures [got-complete] forall q Lv, j int {at(node, q).values[j]} :: visited[q] && 0 <= j && j < len(at(node, q).values) ==> got[at(node, q).values[j]]
+//@   ensures [seen-got] forall v iface {got[v]} :: got[v] ==> seen[v]
+//@   ensures [got-first] forall q Lv {visited[q]} :: visited[q] ==> got[at(node, q).values[0]]
 //@   calls fn
-//@   modifies anystop
+//@   modifies anystop, seen
 //@   loop 1 invariant [wf] wf() && isnode[node] && (old(anystop) ==> anystop)
+//@   loop 1 invariant [vals-kept] forall n *node {elemarr(n.values)} {old(elemarr(n.values))} :: isnode[n] ==> elemarr(n.values) == old(elemarr(n.values))
 //@   loop 1 invariant [sound] okf(t, lv(topic, t.separator)) ==> forall q Lv {acc1[q]} :: acc1[q] ==> stored(node, q) && M(t, lv(topic, t.separator), q)
 //@   loop 1 invariant [complete] okf(t, lv(topic, t.separator)) && !anystop ==> forall q Lv {stored(node, q)} :: !isnil(q) && visited[lhd(q)] && stored(node, q) && M(t, lv(topic, t.separator), q) ==> acc1[q]
+//@   loop 1 invariant [seen] forall v iface {seen[v]} :: seen[v] <==> (old(seen[v]) || (c2 && inl(node.values, v)) || gacc1[v])
+//@   loop 1 invariant [got-sound] forall v iface {gacc1[v]} :: gacc1[v] ==> exists q Lv {acc1[q]} :: acc1[q] && inl(at(node, q).values, v)
+//@   loop 1 invariant [got-complete] forall q Lv, j int {at(node, q).values[j]} :: acc1[q] && 0 <= j && j < len(at(node, q).values) ==> gacc1[at(node, q).values[j]]
 //@   loop 2 invariant [wf] wf() && isnode[node] && (old(anystop) ==> anystop)
+//@   loop 2 invariant [vals-kept] forall n *node {elemarr(n.values)} {old(elemarr(n.values))} :: isnode[n] ==> elemarr(n.values) == old(elemarr(n.values))
 //@   loop 2 invariant [sound] okf(t, lv(topic, t.separator)) ==> forall q Lv {acc2[q]} :: acc2[q] ==> stored(node, q) && M(t, lv(topic, t.separator), q)
 //@   loop 2 invariant [complete] okf(t, lv(topic, t.separator)) && !anystop ==> forall q Lv {stored(node, q)} :: !isnil(q) && visited[lhd(q)] && stored(node, q) && M(t, lv(topic, t.separator), q) ==> acc2[q]
+//@   loop 2 invariant [seen] forall v iface {seen[v]} :: seen[v] <==> (old(seen[v]) || gacc1[v] || gacc2[v])
+//@   loop 2 invariant [got-sound] forall v iface {gacc2[v]} :: gacc2[v] ==> exists q Lv {acc2[q]} :: acc2[q] && inl(at(node, q).values, v)
+//@   loop 2 invariant [got-complete] forall q Lv, j int {at(node, q).values[j]} :: acc2[q] && 0 <= j && j < len(at(node, q).values) ==> gacc2[at(node, q).values[j]]
 
 // ---------------------------------------------------------------- public methods: one critical section each
 //
@@ -291,70 +336,96 @@ package topic
 //@   ensures [snapshot] snapshot(r) && fresh(r)
 //@   ensures [distinct] forall i int, j int {r[i], r[j]} :: 0 <= i && i < j && j < len(r) ==> r[i] != r[j]
 //@   ensures [tree] tree_ok(t)
+//@   ghostreset seen, anystop
+//@   ensures [sound] forall i int {r[i]} :: 0 <= i && i < len(r) ==> exists q Lv {at(t.root, q)} :: stored(t.root, q) && M(t, q, lv(topic, t.separator)) && inl(at(t.root, q).values, r[i])
+//@   ensures [complete] forall q Lv, j int {at(t.root, q).values[j]} :: stored(t.root, q) && M(t, q, lv(topic, t.separator)) && 0 <= j && j < len(at(t.root, q).values) ==> exists i int {r[i]} :: 0 <= i && i < len(r) && r[i] == at(t.root, q).values[j]
 //@   ensures [released] held == old(held)
 //@   assumes [stored-values] forall i int {r[i]} :: 0 <= i && i < len(r) ==> r[i] != nil && (tvtype[t] == 0 || (dyn(r[i]) == tvtype[t] && payload(r[i]) != 0))
-//@   modifies held, anystop
+//@   modifies held, anystop, seen
 //@ func (t *Tree) Match$1(values []interface{}) (cont bool)
+//@   hint forward-frames
 //@   requires [nonempty] len(values) > 0
 //@   requires [wf] wf()
 //@   preserves [own] snapshot(*list) && (arr(*list) == 0 || arr(*list) > addr(list))
+//@   preserves [nostop] !anystop
+//@   preserves [collected-in] forall k int {(*list)[k]} :: 0 <= k && k < len(*list) ==> seen[(*list)[k]]
+//@   preserves [collected-all] forall v iface {seen[v]} :: seen[v] ==> inl(*list, v)
 //@   ensures [wf] old(wf()) ==> wf()
 //@   ensures [continue] cont
 //@   ensures [stopped] anystop <==> (old(anystop) || !cont)
 //@   ghostset anystop := anystop || !cont
-//@   modifies *list, elems((*list)[0:cap(*list)]), anystop
+//@   ghostset pointwise seen[v] := seen[v] || old(inl(values, v))
+//@   modifies *list, elems((*list)[0:cap(*list)]), anystop, seen
 //@ func (t *Tree) Search(topic string) (r []interface{})
 //@   requires [unlocked] held[t.mutex] == 0
 //@   requires [tree] tree_ok(t) && std(t)
 //@   ensures [snapshot] snapshot(r) && fresh(r)
 //@   ensures [distinct] forall i int, j int {r[i], r[j]} :: 0 <= i && i < j && j < len(r) ==> r[i] != r[j]
 //@   ensures [tree] tree_ok(t)
+//@   ghostreset seen, anystop
+//@   ensures [sound] okf(t, lv(topic, t.separator)) ==> forall i int {r[i]} :: 0 <= i && i < len(r) ==> exists q Lv {at(t.root, q)} :: stored(t.root, q) && M(t, lv(topic, t.separator), q) && inl(at(t.root, q).values, r[i])
+//@   ensures [complete] okf(t, lv(topic, t.separator)) ==> forall q Lv, j int {at(t.root, q).values[j]} :: stored(t.root, q) && M(t, lv(topic, t.separator), q) && 0 <= j && j < len(at(t.root, q).values) ==> exists i int {r[i]} :: 0 <= i && i < len(r) && r[i] == at(t.root, q).values[j]
 //@   ensures [released] held == old(held)
 //@   assumes [stored-values] forall i int {r[i]} :: 0 <= i && i < len(r) ==> r[i] != nil && (tvtype[t] == 0 || (dyn(r[i]) == tvtype[t] && payload(r[i]) != 0))
-//@   modifies held, anystop
+//@   modifies held, anystop, seen
 //@ func (t *Tree) Search$1(values []interface{}) (cont bool)
+//@   hint forward-frames
 //@   requires [nonempty] len(values) > 0
 //@   requires [wf] wf()
 //@   preserves [own] snapshot(*list) && (arr(*list) == 0 || arr(*list) > addr(list))
+//@   preserves [nostop] !anystop
+//@   preserves [collected-in] forall k int {(*list)[k]} :: 0 <= k && k < len(*list) ==> seen[(*list)[k]]
+//@   preserves [collected-all] forall v iface {seen[v]} :: seen[v] ==> inl(*list, v)
 //@   ensures [wf] old(wf()) ==> wf()
 //@   ensures [continue] cont
 //@   ensures [stopped] anystop <==> (old(anystop) || !cont)
 //@   ghostset anystop := anystop || !cont
-//@   modifies *list, elems((*list)[0:cap(*list)]), anystop
+//@   ghostset pointwise seen[v] := seen[v] || old(inl(values, v))
+//@   modifies *list, elems((*list)[0:cap(*list)]), anystop, seen
 //@ func (t *Tree) MatchFirst(topic string) (v interface{})
 //@   requires [unlocked] held[t.mutex] == 0
 //@   requires [tree] tree_ok(t) && std(t)
 //@   ensures [tree] tree_ok(t)
+//@   ghostreset seen, anystop
+//@   ensures [found] anystop ==> exists q Lv {at(t.root, q)} :: stored(t.root, q) && M(t, q, lv(topic, t.separator)) && inl(at(t.root, q).values, v)
+//@   ensures [none] !anystop ==> v == nil && forall q Lv {at(t.root, q)} :: !(stored(t.root, q) && M(t, q, lv(topic, t.separator)))
 //@   ensures [released] held == old(held)
 //@   assumes [stored-value] v != nil ==> tvtype[t] == 0 || (dyn(v) == tvtype[t] && payload(v) != 0)
 //@   ensures [logged] lastfirst == payload(v)
 //@   ghostset lastfirst := payload(v)
-//@   modifies held, lastfirst, anystop
+//@   modifies held, lastfirst, anystop, seen
 //@ func (t *Tree) MatchFirst$1(values []interface{}) (cont bool)
 //@   requires [nonempty] len(values) > 0
 //@   requires [wf] wf()
+//@   preserves [first] (anystop ==> seen[*value]) && (!anystop ==> *value == nil && forall v iface {seen[v]} :: !seen[v])
 //@   ensures [wf] old(wf()) ==> wf()
 //@   ensures [stop] !cont
 //@   ensures [stopped] anystop <==> (old(anystop) || !cont)
 //@   ghostset anystop := anystop || !cont
-//@   modifies *value, anystop
+//@   ghostset pointwise seen[v] := seen[v] || old(inl(values, v))
+//@   modifies *value, anystop, seen
 //@ func (t *Tree) SearchFirst(topic string) (v interface{})
 //@   requires [unlocked] held[t.mutex] == 0
 //@   requires [tree] tree_ok(t) && std(t)
 //@   ensures [tree] tree_ok(t)
+//@   ghostreset seen, anystop
+//@   ensures [found] okf(t, lv(topic, t.separator)) ==> anystop ==> exists q Lv {at(t.root, q)} :: stored(t.root, q) && M(t, lv(topic, t.separator), q) && inl(at(t.root, q).values, v)
+//@   ensures [none] okf(t, lv(topic, t.separator)) ==> !anystop ==> v == nil && forall q Lv {at(t.root, q)} :: !(stored(t.root, q) && M(t, lv(topic, t.separator), q))
 //@   ensures [released] held == old(held)
 //@   assumes [stored-value] v != nil ==> tvtype[t] == 0 || (dyn(v) == tvtype[t] && payload(v) != 0)
 //@   ensures [logged] lastfirst == payload(v)
 //@   ghostset lastfirst := payload(v)
-//@   modifies held, lastfirst, anystop
+//@   modifies held, lastfirst, anystop, seen
 //@ func (t *Tree) SearchFirst$1(values []interface{}) (cont bool)
 //@   requires [nonempty] len(values) > 0
 //@   requires [wf] wf()
+//@   preserves [first] (anystop ==> seen[*value]) && (!anystop ==> *value == nil && forall v iface {seen[v]} :: !seen[v])
 //@   ensures [wf] old(wf()) ==> wf()
 //@   ensures [stop] !cont
 //@   ensures [stopped] anystop <==> (old(anystop) || !cont)
 //@   ghostset anystop := anystop || !cont
-//@   modifies *value, anystop
+//@   ghostset pointwise seen[v] := seen[v] || old(inl(values, v))
+//@   modifies *value, anystop, seen
 //@ func (t *Tree) All() (r []interface{})
 //@   requires [unlocked] held[t.mutex] == 0
 //@   requires [tree] tree_ok(t)
